@@ -161,6 +161,7 @@ class Unit:
         self.budget_s = budget_s  # wall budget of one exploration task (a subtree); exceeding it is inconclusive
 
 
+SLICE_S = 5  # a task that has run this long hands the unexplored rest of its subtree back to the pool
 TASK_BUDGET_S = 1500  # wall budget of one exploration task; check_property lowers it for the quick tier
 _UNITS: list[Unit] = []
 _SEED = 0
@@ -179,7 +180,7 @@ def _explore_task(task):
     e.budget_s = u.budget_s or TASK_BUDGET_S
     t = time.time()
     try:
-        res = e.explore(u.sym, prefixes=prefixes, stop_when_queued=seed_target)
+        res = e.explore(u.sym, prefixes=prefixes, stop_when_queued=seed_target, yield_after_s=SLICE_S)
         err = None
     except Unsupported as x:
         res = e.results  # partial results are kept: violations found so far are still replayed and reported
@@ -189,7 +190,7 @@ def _explore_task(task):
         err = "%s: %s\n%s" % (type(x).__name__, x, "".join(traceback.format_tb(x.__traceback__)[-8:]))
     return {"unit": ui, "results": [_res_to_dict(r) for r in res], "error": err, "paths": e.paths, "queries": e.queries,
             "solver_s": e.solver_time, "wall_s": time.time() - t, "hash_attempts": e.hash_attempts, "exported": e.exported,
-            "left": e.work if (seed_target is not None and err is None) else []}
+            "left": e.work if err is None else []}
 
 
 def explore_units(units, seed=0, nproc=None, budget_s=None):
@@ -221,16 +222,44 @@ def explore_units(units, seed=0, nproc=None, budget_s=None):
     # splittable (big) units first
     tasks.sort(key=lambda t: t[3] is None)
     if nproc <= 1:
-        for t in tasks:
-            merge(_explore_task(t))
+        todo = _b.list(tasks)
+        while todo:
+            merge(_explore_task(todo.pop()))
+            todo += round2
+            del round2[:]
         return agg
+    # work-stealing: every task runs for at most SLICE_S and returns the prefixes it has not explored; those are
+    # queued again (deepest = smallest last).  A unit whose tasks together exceed budget x nproc is inconclusive.
+    import queue
+    done = queue.Queue()
+    pending = [0]
+    dead = set()
     ctx = mp.get_context("fork")
     with ctx.Pool(nproc) as pool:
-        for out in pool.imap_unordered(_explore_task, tasks, chunksize=1):
+        def submit(t):
+            pending[0] += 1
+            pool.apply_async(_explore_task, (t,), callback=done.put, error_callback=done.put)
+        for t in tasks:
+            submit(t)
+        while pending[0]:
+            out = done.get()
+            pending[0] -= 1
+            if isinstance(out, BaseException):
+                raise out
             merge(out)
-        if round2:
-            for out in pool.imap_unordered(_explore_task, round2, chunksize=1):
-                merge(out)
+            ui = out["unit"]
+            a, u = agg[ui], _UNITS[ui]
+            if ui not in dead:
+                if a["cpu_s"] > (u.budget_s or TASK_BUDGET_S) * nproc:
+                    a["errors"].append("Unsupported: time budget of this unit exhausted (%d s x %d processes)" % (u.budget_s or TASK_BUDGET_S, nproc))
+                    dead.add(ui)
+                elif a["paths"] > u.max_paths:
+                    a["errors"].append("Unsupported: max paths %d reached" % u.max_paths)
+                    dead.add(ui)
+            if ui not in dead:
+                for t in round2:
+                    submit(t)
+            del round2[:]
     return agg
 
 
@@ -555,7 +584,7 @@ def check_property(prop, units, tier, seed, *, explanation, assumptions, stubs=(
         print("KNOWN-FINDING: property=%s %s [%s]" % (prop, k["what"], k["id"]))
     for v in out.violations:
         print("VIOLATION property=%s replay=%s" % (prop, v["replay"]))
-        print("  %s inputs=%s" % (v["what"], json.dumps(v["inputs"])[:300]))
+        print("  unit=%s %s inputs=%s" % (v["unit"].replace(" ", "_"), v["what"], json.dumps(v["inputs"])[:300]))
         code = 1
     if out.harness_errors:
         for e in out.harness_errors[:20]:
